@@ -857,8 +857,86 @@ def rule_once(chk, loader_evaluated=False):
         chk.ob("C12.once/mark-inserts", ok, "mark_as_pragma_once inserts into pragma_once_files" if ok else "mark_as_pragma_once no longer records the id", where(mk))
 
 
+def initial_file_table(f):
+    """preprocess_initial_file walked with a recording stand-in for the entry file (preprocess_included_file): ->
+    {"macros": what the entry file is handed, per define list; "chains": the verdict for each chain the entry file leaves
+    behind} or a string saying why it is not readable. The lexer is rssl's own, walked."""
+    import interp as I
+    cache = f.__dict__.setdefault("_initial_file_table", {})
+    if "t" in cache:
+        return cache["t"]
+    pi = f.fn("preprocess_initial_file", PP)
+    if not pi:
+        cache["t"] = "preprocess_initial_file not found"
+        return cache["t"]
+    out = {"macros": {}, "chains": {}}
+    define_lists = {"none": [], "one": [("A", "1")], "two": [("A", "1"), ("B", "x + 2")], "empty-value": [("FLAG", "")], "same-name-twice": [("A", "1"), ("A", "2")]}
+    chains = {"balanced": [], "open, selected": ["Enabled"], "open, skipped": ["DisabledInner"], "open twice": ["Enabled", "DisabledOuter"], "open, done": ["DisabledOuter"]}
+
+    def run(defines, leave):
+        seen = {}
+
+        def included(a):
+            args_ = [x.get() if isinstance(x, I.Ref) else x for x in a]
+            ms = [x for x in args_ if isinstance(x, list) and all(isinstance(y, I.Enum) and y.adt == "Macro" for y in x) and (x or True)]
+            macro_lists = [x for x in args_ if isinstance(x, list) and x and all(isinstance(y, I.Enum) and y.adt == "Macro" for y in x)]
+            seen["macros"] = [(m_.fields.get("name"), m_.fields.get("is_function"), m_.fields.get("num_params"),
+                               [(t_.fields["0"].variant, t_.fields["0"].fields.get("0") if not isinstance(t_.fields["0"].fields.get("0"), I.Enum) else t_.fields["0"].fields["0"].fields.get("0")) for t_ in m_.fields.get("tokens", [])],
+                               getattr(m_.fields.get("location"), "fields", {}).get("0")) for m_ in (macro_lists[0] if macro_lists else [])]
+            for x in args_:
+                if isinstance(x, I.Enum) and x.adt == "ConditionChain":
+                    x.fields["0"].extend(I.Enum("ConditionState", s_) for s_ in leave)
+            return I.Enum("Result", "Ok", {"0": ()})
+        ip = I.Interp(f, max_depth=30, extern={"preprocess_included_file": included})
+        ip.max_loop = 4096
+        r = ip.apply(pi, [I.Opaque("input file"), I.Enum("FileLoader", None, {"source_manager": I.Opaque("sm")}), [(n_, v_) for n_, v_ in defines]])
+        res = r.variant if isinstance(r, I.Enum) else repr(r)
+        if res == "Err" and isinstance(r.fields.get("0"), I.Enum):
+            res = "Err(%s)" % r.fields["0"].variant
+        return res, seen.get("macros")
+    try:
+        for k, d in define_lists.items():
+            out["macros"][k] = (d, run(d, []))
+        for k, c in chains.items():
+            out["chains"][k] = (c, run([], c)[0])
+    except I.Unknown as e:
+        cache["t"] = ("aborts: " if "panicking" in str(e) else "not readable: ") + str(e)[:100]
+        return cache["t"]
+    cache["t"] = out
+    return out
+
+
+def rule_defines_eval(chk):
+    """Definitions supplied through the API: preprocess_initial_file walked on five define lists (initial_file_table). The
+    entry file is processed with exactly one object-like macro per define, in order, named after it, holding the tokens
+    of its value as rssl's own lexer cuts them, marked as having no source location. True when readable."""
+    f = chk.facts
+    pi = f.fn("preprocess_initial_file", PP)
+    t = initial_file_table(f)
+    if isinstance(t, str):
+        if t.startswith("aborts"):
+            chk.ob("C12.defines/model", False, "preprocess_initial_file %s" % t, where(pi) if pi else PP)
+            return True
+        chk.note("C12.defines: preprocess_initial_file is %s; the shape rules decide" % t)
+        return False
+    lexed = {"1": [("LiteralInt", 1)], "2": [("LiteralInt", 2)], "": [], "x + 2": [("Id", "x"), ("Whitespace", None), ("Plus", None), ("Whitespace", None), ("LiteralInt", 2)]}
+    bad = None
+    for k, (defines, (res, macros)) in t["macros"].items():
+        want = [(n_, False, 0, lexed[v_], 0xFFFFFFFF) for n_, v_ in defines]
+        if res != "Ok":
+            bad = bad or "with the API defines %s the entry file is not processed (%s)" % (defines, res)
+        elif (macros or []) != want:
+            bad = bad or "with the API defines %s the entry file is processed with the macros %s; it must see %s (one object-like macro per define, in order, its value lexed, no source location)" % (defines, macros, want)
+    chk.ob("C12.defines/model", bad is None, bad or "%d define lists: the entry file sees one object-like macro per define" % len(t["macros"]), where(pi), sample={"lists": len(t["macros"])})
+    for k in ("all-defines", "object-like", "before-entry-file", "same-macro-list"):
+        chk.ob("C12.defines/" + k, True, "decided by C12.defines/model", where(pi), trivial=True)
+    return True
+
+
 def rule_defines(chk):
     f = chk.facts
+    if rule_defines_eval(chk):
+        return
     pi = chk.anchor("C12.anchor/preprocess_initial_file", f.fn("preprocess_initial_file", PP), "preprocess_initial_file")
     if not pi:
         return
